@@ -2,26 +2,52 @@
 # loop ids of the two fixup-list walks (if the code changes shape the global bound applies again: slower, never unsound)
 UW_BIND = ','.join('_ZN6asmjit5v1_2110CodeHolder10bind_labelERKNS0_5LabelEjm.%d:5' % i for i in range(8))   # every back edge of the one do-while in bind_label
 UW_EXPR = '_ZN6asmjit5v1_21L30CodeHolder_evaluate_expressionEPNS0_10CodeHolderEPNS0_10ExpressionEPm:3'   # recursion depth of the expression evaluator
+UW_EXPR1 = UW_EXPR[:-2] + ':1'   # harnesses without an Expression relocation: the evaluator may be entered (type field symbolic for the executor) but never recurses
 UW_EMB = UW_BIND + ',' + UW_EXPR
 FS = ['--max-field-sensitivity-array-size', '128']
 CH = ['asmjit/core/codeholder.cpp', 'asmjit/core/codewriter.cpp']
 UNITS = [
     Unit('fixup', harness=['h_fixup.cpp'], repo_units=CH),
+    Unit('x86ref', harness=['h_x86ref.cpp'], repo_units=CH + ['asmjit/x86/x86assembler.cpp', 'asmjit/x86/x86instdb.cpp', 'asmjit/x86/x86instapi.cpp']),
+    Unit('a64ref', harness=['h_a64ref.cpp'], repo_units=CH + ['asmjit/arm/a64assembler.cpp', 'asmjit/arm/a64instdb.cpp']),
     Unit('embed', harness=['h_embed.cpp'], repo_units=CH + ['asmjit/core/assembler.cpp']),
 ]
 B_FIX = ' pending fixup(s) of one label, each with symbolic section (0/1), position inside its own 8-byte window, addend (all 2^64), format drawn from {x86 rel8, rel32, a64 imm26, imm19, imm14, ADR, ADRP} or relocation-carrying {embed_label 1/2/4/8, x86-32 [label]}; 24 symbolic bytes per section (field bits zero); '
-HARNESSES = [Harness('fixup', 'h_bind_%d' % k, unwind=49, bounds=str(k) + B_FIX + 'bind target section 0..3 and offset all 2^64; label id valid or beyond the table; older cross-section list empty or one entry; pool empty or one entry', mem_gb=6, timeout=900, unwindset=UW_BIND,
+HARNESSES = [Harness('fixup', 'h_bind_%d' % k, unwind=49, bounds=str(k) + B_FIX + 'bind target section 0..3 and offset all 2^64; label id valid or beyond the table; older cross-section list empty or one entry; pool empty or one entry', mem_gb=(1, 2, 4, 8)[k], timeout=(300, 600, 900, 3600)[k], unwindset=UW_BIND,
                      tiers=('quick', 'thorough') if k < 3 else ('thorough',)) for k in (0, 1, 2, 3)]
 HARNESSES += [Harness('fixup', 'h_bind_invalid', unwind=9, bounds='label id / section id in {count, count+1, 2^31, kInvalidId}; 2 pending fixups as in h_bind_2', mem_gb=4, timeout=600, unwindset=UW_BIND)]
 HARNESSES += [Harness('fixup', 'h_bind_twice', unwind=9, bounds='label bound at any offset in section 0/1, second bind with any section 0/1 and offset', mem_gb=2, timeout=300)]
-HARNESSES += [Harness('fixup', 'h_resolve_%d' % k, unwind=49, bounds=str(k) + B_FIX + 'two bound labels at any 2^64 offset in either section; both section offsets all 2^64 (overflow of section + label inside)', mem_gb=6, timeout=900,
+HARNESSES += [Harness('fixup', 'h_resolve_%d' % k, unwind=49, bounds=str(k) + B_FIX + 'two bound labels at any 2^64 offset in either section; both section offsets all 2^64 (overflow of section + label inside)', mem_gb=(1, 1, 2, 4)[k], timeout=(300, 600, 900, 3600)[k],
                       tiers=('quick', 'thorough') if k < 3 else ('thorough',)) for k in (0, 1, 2, 3)]
 B_EMB = 'x86-32 / x86-64; emitting section 0/1; label bound before the reference (section 0/1, offset all 2^64) or bound afterwards anywhere; section offsets and base address all 2^64; 32 symbolic bytes per section'
-HARNESSES += [Harness('embed', 'h_embed_label_%d' % n, unwind=33, bounds='embed_label data size %d (0 = register size); ' % n + B_EMB, mem_gb=4, timeout=600, unwindset=UW_EMB, flags=FS) for n in (0, 1, 2, 4, 8, 3, 16)]
-HARNESSES += [Harness('embed', 'h_embed_label_invalid', unwind=33, bounds='label id any value beyond the table', mem_gb=4, timeout=600, unwindset=UW_EMB, flags=FS)]
-HARNESSES += [Harness('embed', 'h_embed_delta_%d' % n, unwind=33, bounds='embed_label_delta data size %d (0 = register size); nine combinations of (emitting section, each label bound before in section 0/1 or bound afterwards anywhere); ' % n + B_EMB, mem_gb=4, timeout=600, unwindset=UW_EMB, flags=FS) for n in (0, 1, 2, 4, 8)]
-HARNESSES += [Harness('embed', 'h_embed_delta_%d_kf_C03a' % n, unwind=33, known='C03a', bounds='as h_embed_delta_%d, confined to: both labels already bound to one section and the difference does not fit the field' % n, mem_gb=4, timeout=600, unwindset=UW_EMB, flags=FS) for n in (1, 4)]
-HARNESSES += [Harness('embed', 'h_expression_' + k, unwind=33, bounds='expression shape ' + k + ' (c = constant, l = label, nested = depth 2); operators add/sub/mul/sll/srl/sra and an invalid one (mul: constant factor 8 bits wide, depth 1 only); constants, label offset, section offsets all 2^64', mem_gb=4, timeout=600, unwindset=UW_EMB, flags=FS) for k in ('cc', 'lc', 'nested_l', 'nested_r')]
+HARNESSES += [Harness('embed', 'h_embed_label_%d' % n, unwind=33, bounds='embed_label data size %d (0 = register size); ' % n + B_EMB, mem_gb=2, timeout=600, unwindset=UW_EMB, flags=FS) for n in (0, 1, 2, 4, 8, 3, 16)]
+HARNESSES += [Harness('embed', 'h_embed_label_invalid', unwind=33, bounds='label id any value beyond the table', mem_gb=2, timeout=600, unwindset=UW_EMB, flags=FS)]
+HARNESSES += [Harness('embed', 'h_embed_delta_%d' % n, unwind=33, bounds='embed_label_delta data size %d (0 = register size); nine combinations of (emitting section, each label bound before in section 0/1 or bound afterwards anywhere); ' % n + B_EMB, mem_gb=2, timeout=600, unwindset=UW_EMB, flags=FS) for n in (0, 1, 2, 4, 8)]
+HARNESSES += [Harness('embed', 'h_embed_delta_%d_kf_C03a' % n, unwind=33, known='C03a', bounds='as h_embed_delta_%d, confined to: both labels already bound to one section and the difference does not fit the field' % n, mem_gb=2, timeout=600, unwindset=UW_EMB, flags=FS) for n in (1, 4)]
+HARNESSES += [Harness('embed', 'h_expression_' + k, unwind=33, bounds='expression shape ' + k + ' (c = constant, l = label, nested = depth 2); operators add/sub/mul/sll/srl/sra and an invalid one (mul: constant factor 8 bits wide, depth 1 only); constants, label offset, section offsets all 2^64', mem_gb=2, timeout=600, unwindset=UW_EMB, flags=FS) for k in ('cc', 'lc', 'nested_l', 'nested_r')]
+UW_REL = ','.join('_ZN6asmjit5v1_2110CodeHolder16relocate_to_baseEmPNS1_17RelocationSummaryE.%d:3' % i for i in range(14))
+UW_RES = ','.join('_ZN6asmjit5v1_2110CodeHolder28resolve_cross_section_fixupsEv.%d:4' % i for i in range(10))
+B_X86 = {'bound': 'label already bound in this section at any position below 2 GiB', 'later': 'label unbound, bound afterwards at any position below 2 GiB (bind_label patches)', 'xsect': 'label bound in another section below 2 GiB, section offsets below 2^40 (resolve_cross_section_fixups patches)'}
+X86_FORMS = [('jmp', 'jmp label, short/long form options'), ('jcc', 'jz/jnbe/jl/jo label, short/long form options'), ('call', 'call label'), ('jecxz', 'jecxz label'), ('loop', 'loop label'),
+             ('mov_rip', '64-bit mov ecx, [label+disp32]'), ('lea_rip', '64-bit lea rax, [label+disp32]'), ('add_rip_imm8', '64-bit add dword [label+disp32], imm8'), ('add_rip_imm32', '64-bit add dword [label+disp32], imm32'), ('mov_abs32', '32-bit mov ecx, [label+disp32] (relocation; base and section offset below 2^32)')]
+QUICK_X86 = ('h_x86_jmp_later', 'h_x86_jcc_bound', 'h_x86_add_rip_imm32_later', 'h_x86_mov_abs32_bound', 'h_x86_jcc_xsect')
+for f, what in X86_FORMS:
+    for m in ('bound', 'later', 'xsect'):
+        fn = 'h_x86_%s_%s' % (f, m)
+        # --unwindset may only name functions the harness reaches (unused ones are dropped and then rejected as invalid ids)
+        uw = [UW_BIND] if m == 'later' else [UW_RES] if m == 'xsect' else []
+        if f == 'mov_abs32': uw += [UW_EXPR1]   # ends with relocate_to_base
+        HARNESSES.append(Harness('x86ref', fn, unwind=33, bounds=what + '; disp32 all 2^32; ' + B_X86[m] + '; cursor at byte 8 of a 32-byte buffer', mem_gb=3, timeout=1800,
+                                 unwindset=','.join(uw) or None, flags=FS, known='C03b' if m == 'xsect' else None, tiers=('quick', 'thorough') if fn in QUICK_X86 else ('thorough',)))
+A64_FORMS = [('b', 'b label'), ('bl', 'bl label'), ('bcond', 'b.eq/ne/ge/lt label'), ('cbz', 'cbz x0-15, label'), ('tbz', 'tbz x0-15, bit 0-63, label'), ('adr', 'adr x0-15, label'), ('adrp', 'adrp x0-15, label'), ('ldr_lit', 'ldr x0-15, [label, disp32]')]
+B_A64 = {'bound': 'label already bound in this section at any position below 8 GiB', 'later': 'label unbound, bound afterwards at any position below 8 GiB (bind_label patches)', 'xsect': 'label bound in another section, section offsets below 2^40 (resolve_cross_section_fixups patches)'}
+QUICK_A64 = ('h_a64_b_later', 'h_a64_tbz_bound', 'h_a64_adrp_later', 'h_a64_ldr_lit_bound', 'h_a64_cbz_xsect')
+for f, what in A64_FORMS:
+    for m in ('bound', 'later', 'xsect'):
+        fn = 'h_a64_%s_%s' % (f, m)
+        uw = [UW_BIND] if m == 'later' else [UW_RES] if m == 'xsect' else []
+        HARNESSES.append(Harness('a64ref', fn, unwind=33, bounds=what + '; ' + B_A64[m] + '; cursor at byte 8 of a 32-byte buffer', mem_gb=3, timeout=1800,
+                                 unwindset=','.join(uw) or None, flags=FS, known='C03b' if m == 'xsect' else None, tiers=('quick', 'thorough') if fn in QUICK_A64 else ('thorough',)))
 EXPLANATION = 'bounded symbolic execution (CBMC) of the real CodeHolder::bind_label / resolve_cross_section_fixups / new_fixup / relocate_to_base, BaseAssembler::embed_label / embed_label_delta and the reference sites of x86::Assembler::_emit / a64::Assembler::_emit compiled from /repo; the oracle decodes the patched bytes the way the CPU does (reference decoders in the harness)'
 OUTSIDE = ['more than 3 pending fixups per label (the list code is uniform in the length)', 'more than 2 sections', 'buffer growth during emission (C15)', 'Thumb/A32 formats (no A32 assembler in this tree)']
 ASSUMPTIONS = ['emitter.cpp is not linked: BaseEmitter::_report_error (counter) and BaseEmitter::is_label_valid (same one-line test) are defined in the harness; the assembler object is attached by construction',
